@@ -321,6 +321,16 @@ def section_herm():
                                     ([0.0, 0.125, 0.25, 0.375, 2.0], [0] * 5, (0,), "sparse", "chain4/sparse")):
         pb = Problem(E, sub, seed=4, fmt=fmt)
         check_problem("herm", pb, 2, fully=fully, atol=0.3, label=f"{lab}/atol0.3")
+    # selective masks in a dictionary whose keys are not the positions of its entries: only the second block, blocks listed in descending order, a gap
+    pb = Problem([0.0, 1.0, 2.5, 4.0, 5.5, 7.5, 9.0], [0, 0, 0, 1, 1, 1, 2], seed=21)
+    chain = np.zeros((3, 3), dtype=bool)
+    chain[0, 2] = chain[2, 0] = True          # kept pattern {0-1, 1-2}: not transitive
+    other = np.zeros((3, 3), dtype=bool)
+    other[0, 1] = other[1, 0] = True
+    for lab, md in (("only-block-1", {1: chain}), ("descending-keys", {1: chain, 0: other}), ("ascending-keys", {0: other, 1: chain}), ("blocks-0-and-2", {2: np.zeros((1, 1), dtype=bool), 0: chain})):
+        for fmt in ("dense", "sparse"):
+            pbm = Problem([0.0, 1.0, 2.5, 4.0, 5.5, 7.5, 9.0], [0, 0, 0, 1, 1, 1, 2], seed=21, fmt=fmt)
+            check_problem("herm", pbm, 3, mask_dict=md, label=f"mask-dictionary/{lab}/{fmt}")
     # symbolic (exact rational) values: several fully diagonalized blocks of the SAME size with different degeneracy patterns (a mask is a property of its block,
     # not of its shape), also selective masks that differ between equally sized blocks
     for E, sub, fully in (([0, 0, 1, 3], [0, 0, 1, 1], (0, 1)), ([1, 3, 0, 0], [0, 0, 1, 1], (0, 1)), ([0, 2, 2, 5, 7, 7], [0, 1, 1, 0, 2, 2], (0, 1, 2))):
@@ -871,6 +881,19 @@ def section_solvers():
         warned = any(issubclass(x.category, RuntimeWarning) for x in wlist)
         if np.abs(resid).max() > 1e-3 * max(1.0, np.abs(Y).max()) and not warned:
             fail("solvers", "KPM solver: residual of E V - V H = Y P far above the requested accuracy and no convergence warning", aux=naux, err=float(np.abs(resid).max()))
+    # KPM solver asked for the left-implicit orientation: it has no Green's function for it and must refuse (never answer with the explicit part alone)
+    cases += 1
+    try:
+        with warnings.catch_warnings():
+            warnings.simplefilter("ignore")
+            ss = solve_sylvester_KPM(H, (vA,), solver_options={"atol": 1e-6})
+            Vl = ss(rng.normal(size=(n, 2)), (1, 0))
+        Pl = np.eye(n) - vA @ vA.T
+        fail("solvers", "KPM solver: left-implicit request answered although H V - V E = P Y is not solved", residual=float(np.abs(H @ np.asarray(Vl) - np.asarray(Vl) @ np.diag(w[:2]) - Pl @ np.ones((n, 2))).max()))
+    except NotImplementedError:
+        pass
+    except Exception as e:  # noqa: BLE001
+        fail("solvers", "KPM solver: left-implicit request raised something else than NotImplementedError", error=repr(e)[:200])
     # KPM solver with every option left to its default and TWO explicit subspaces (explicit-explicit solves go through the diagonal solver)
     cases += 1
     try:
@@ -966,6 +989,22 @@ def section_illposed():
     m = np.ones((3, 3), dtype=bool)
     np.fill_diagonal(m, False)
     expect("mask eliminates a degenerate pair", (ValueError,), lambda: block_diagonalize([Ed, herm(3)], fully_diagonalize={0: m}))
+    # the same for every position of the offending entry: on the diagonal of the mask (an all-ones mask), only above or only below the diagonal (non-Hermitian mode),
+    # in a mask for the second block, for levels equal only within atol, dense / sparse / exact-rational values
+    Ed2 = np.diag([3.0, 0.0, 0.0 + 5e-13, 2.0]).astype(complex)
+    H4 = herm(4)
+    def m_of(entries, n=3):
+        mm = np.zeros((n, n), dtype=bool)
+        for e_ in entries:
+            mm[e_] = True
+        return mm
+    for lab_, hermitian_, mask_ in (("all-ones mask (diagonal selected)", True, np.ones((3, 3), dtype=bool)), ("single diagonal entry", True, m_of([(1, 1)])),
+                                    ("single diagonal entry, non-Hermitian mode", False, m_of([(2, 2)])), ("degenerate pair below the diagonal only", False, m_of([(1, 0)])),
+                                    ("degenerate pair above the diagonal only", False, m_of([(0, 1)])), ("degenerate pair, symmetric", True, m_of([(0, 1), (1, 0)]))):
+        for conv_name, conv_ in (("dense", np.array), ("sparse", sparse.csr_array)):
+            expect(f"mask for block 1 eliminates between levels equal within atol: {lab_} ({conv_name})", (ValueError,),
+                   lambda hermitian_=hermitian_, mask_=mask_, conv_=conv_: block_diagonalize([conv_(Ed2), conv_(H4)], subspace_indices=[0, 1, 1, 1], hermitian=hermitian_,
+                                                                                                 fully_diagonalize={1: mask_})[0][1, 1, 1])
     # asymmetric Hermitian mask
     m2 = np.zeros((3, 3), dtype=bool)
     m2[0, 2] = True
@@ -1013,6 +1052,9 @@ def section_illposed():
     xq, yq = sympy.symbols("x_q y_q")
     for key in (1 / xq, sympy.sqrt(xq), xq ** sympy.Rational(3, 2), yq / xq ** 2):
         expect(f"dictionary key that is no monomial ({key})", (ValueError,), lambda key=key: block_diagonalize({sympy.S.One: hq0, xq: hq1, key: hq1})[0][0, 0, 1, 0])
+    for lab_, ham_ in (("keys of different length", {(0, 0): hq0, (1, 0): hq1, (1,): hq1}), ("a negative order", {(0,): hq0, (1,): hq1, (-1,): hq1}),
+                       ("a fractional order", {(0,): hq0, (1.5,): hq1}), ("bare integers as keys", {0: hq0, 1: hq1})):
+        expect(f"dictionary with {lab_}", (ValueError,), lambda ham_=ham_: block_diagonalize(ham_, subspace_indices=[0, 0, 1])[0][0, 0, 1])
     # operator-valued masks must be adjoint-symmetric in Hermitian mode, like numeric ones
     from sympy.physics.quantum import Dagger as _Dg
     from sympy.physics.quantum.boson import BosonOp as _Bos
@@ -1022,6 +1064,20 @@ def section_illposed():
     H1o = sympy.Matrix([[0, aq + _Dg(aq)], [aq + _Dg(aq), 0]])
     expect("operator-valued mask that is not adjoint-symmetric in Hermitian mode", (ValueError,),
            lambda: block_diagonalize([H0o, H1o], fully_diagonalize=sympy.Matrix([[0, aq], [aq, 0]]))[0][0, 0, 1])
+    # second-quantized problems: levels of equal (operator-valued) unperturbed energy coupled by the perturbation
+    bq = _Bos("b")
+    wq, gq = sympy.symbols("omega_q g_q", positive=True)
+    expect("second-quantized: two blocks with the same H_0 coupled by a constant", (ValueError,),
+           lambda: block_diagonalize(sympy.Matrix([[wq * _Dg(aq) * aq, xq * gq], [xq * gq, wq * _Dg(aq) * aq]]), symbols=[xq], subspace_indices=[0, 1])[1][0, 1, 1])
+    expect("second-quantized: resonant modes coupled by a hopping term", (ValueError,),
+           lambda: block_diagonalize(wq * _Dg(aq) * aq + wq * _Dg(bq) * bq + xq * gq * (_Dg(aq) * bq + _Dg(bq) * aq), symbols=[xq])[0][0, 0, 2])
+    # symbolic H_0 whose off-diagonal block is known to be non-zero (numbers, positive symbols, operators)
+    pq = sympy.Symbol("p_q", positive=True)
+    for lab_, c_ in (("a number", 1), ("a positive symbol", pq), ("an operator", aq + _Dg(aq))):
+        expect(f"symbolic H_0 with a non-zero off-diagonal block ({lab_})", (ValueError,),
+               lambda c_=c_: block_diagonalize(sympy.Matrix([[1, c_ + xq], [c_ + xq, 2]]), symbols=[xq], subspace_indices=[0, 1])[0][0, 0, 2])
+    expect("dictionary with a symbolic H_0 that is not block diagonal", (ValueError,),
+           lambda: block_diagonalize({sympy.S.One: sympy.Matrix([[1, 1], [1, 2]]), xq: sympy.Matrix([[0, 1], [1, 0]])}, subspace_indices=[0, 1])[0][0, 0, 2])
     # mutually exclusive options
     expect("subspace_indices and subspace_eigenvectors together", (ValueError,), lambda: block_diagonalize(
         [np.diag([0.0, 1.0, 3.0, 4.0]), herm(4, False)], subspace_eigenvectors=(v[:, :2], v[:, 2:]), subspace_indices=[0, 0, 1, 1]))
@@ -1256,6 +1312,25 @@ def section_projector():
                     fail("projector", "operator operation raised", view=nm, check=cn, error=repr(e)[:200])
             if op.shape != (n, n) or np.result_type(op.dtype, D.dtype) != D.dtype:
                 fail("projector", "inconsistent shape or dtype", view=nm, shape=op.shape, dtype=str(op.dtype))
+    # single-precision and extended-precision complex vectors (np.dtype == complex holds for complex128 only): same operations, tolerance of the lower precision
+    for dtR, dtL in ((np.complex64, np.complex64), (np.complex64, np.float32), (np.float32, np.complex64), (np.complex64, None), (np.clongdouble, np.clongdouble), (np.complex128, np.complex64)):
+        R = rnd((n, k), np.issubdtype(dtR, np.complexfloating)).astype(dtR)
+        L = None if dtL is None else rnd((n, k), np.issubdtype(dtL, np.complexfloating)).astype(dtL)
+        P = ComplementProjector(R, L)
+        D = np.eye(n) - R.astype(complex) @ (R if L is None else L).astype(complex).conj().T
+        x1, xm = rnd((n,), True), rnd((n, 3), True)
+        Ad = rnd((n, n), True)
+        for nm, (op, mat) in {"P": (P, D), "P.H": (P.H, D.conj().T), "P.T": (P.T, D.T), "conj(P)": (P.conjugate(), D.conj()), "P.T.H": (P.T.H, D.conj())}.items():
+            cases += 1
+            checks = {"op @ vec": (op @ x1, mat @ x1), "op @ mat": (op @ xm, mat @ xm), "op.rmatvec": (op.rmatvec(x1), mat.conj().T @ x1), "mat @ op": (xm.T @ op, xm.T @ mat),
+                      "(op @ A_dense).H @ v": ((op @ aslinearoperator(Ad)).H @ x1, (mat @ Ad).conj().T @ x1)}
+            for cn, (got, want) in checks.items():
+                try:
+                    if not np.abs(np.asarray(got, dtype=complex) - want).max() <= 1e-4 * max(1.0, np.abs(want).max()):
+                        fail("projector", "operator result differs from the dense matrix 1 - R L^H (non-default vector dtype)", view=nm, check=cn, dtype_R=np.dtype(dtR).name,
+                             dtype_L=None if dtL is None else np.dtype(dtL).name)
+                except Exception as e:  # noqa: BLE001
+                    fail("projector", "operator operation raised (non-default vector dtype)", view=nm, check=cn, dtype_R=np.dtype(dtR).name, error=repr(e)[:200])
     # idempotence when L^H R = 1
     cases += 1
     R = np.linalg.qr(rnd((n, k), True))[0]
